@@ -81,6 +81,9 @@ class Replayer:
             return [self.decode(x) for x in p["items"]]
         if t == "tuple":
             return tuple(self.decode(x) for x in p["items"])
+        if t == "numlike":
+            import decimal
+            return decimal.Decimal(p["v"])
         if t == "dict":
             return {"a": 1}
         if t == "set":
